@@ -527,6 +527,18 @@ func mechanism(md protoreflect.MessageDescriptor, b []byte, t *gcore.Type) strin
 			if md.ExtensionRanges().Has(protoreflect.FieldNumber(f.Num)) && (t.File == "p2extfile" || t.File == "p2extrep") {
 				return "unsupported-extension-shape"
 			}
+			// a singular message-typed EXTENSION occurring more than once: same replace-instead-of-merge mechanism
+			if xt, err := t.Resolver().FindExtensionByNumber(md.FullName(), protoreflect.FieldNumber(f.Num)); err == nil {
+				if xd := xt.TypeDescriptor(); xd.Message() != nil && !xd.IsList() && f.WT == refwire.Len {
+					seen[f.Num]++
+					if seen[f.Num] > 1 {
+						return "message-merge"
+					}
+					if m := mechanism(xd.Message(), b[f.DataFrom:f.End], t); m != "" {
+						return m
+					}
+				}
+			}
 			continue
 		}
 		seen[f.Num]++
@@ -623,6 +635,11 @@ func (w *W) checkC08(t *gcore.Type, id string, c *dynamicpb.Message) {
 			continue
 		}
 		w.c08One(t, fmt.Sprintf("%s/trunc@%d", id, n), seed[:n], false)
+	}
+	// the seed twice in a row: still a valid encoding (every field occurs twice: repeated fields arrive in two
+	// chunks, scalars are overwritten by an equal value), arbitrary for the field-dispatch loop
+	if len(seed) <= 4096 {
+		w.c08One(t, id+"/concat-self", append(append([]byte{}, seed...), seed...), false)
 	}
 	// byte replacement at every offset
 	if len(seed) <= 96 {
@@ -1089,4 +1106,7 @@ func reportQuarantine(r *ev.Run) {
 	r.Set("corpus_packages_linked", linked)
 	r.Set("corpus_cells_quarantined(not generated or not compiling: see C16)", q)
 	r.Set("generator_options", strings.TrimSpace(os.Getenv("VERIF_GEN_OPTS")))
+	if alt := os.Getenv("VERIF_GEN_ALT"); alt != "" {
+		r.Set("generator_option_variants", alt)
+	}
 }
